@@ -8,6 +8,8 @@ TARGETS = {"C01-r1": "C01 C07 C08 C20", "C02-r1": "C02 C20", "C03-r1": "C03 C10 
            "C16-r1": "C16", "C17-r1": "C17 C16 C12", "C18-r1": "C18", "C19-r1": "C19", "C20-r1": "C20 C01 C02 C07"}
 for _k in list(TARGETS):
     TARGETS[_k.replace("-r1", "-r2")] = TARGETS[_k]
+TARGETS.update({"C03-r2": "C03 C10 C09 C02 C20", "C04-r2": "C04 C09", "C08-r2": "C08 C07", "C12-r2": "C12", "C16-r2": "C16 C15 C14",
+                "C17-r2": "C17 C16", "C18-r2": "C18", "C20-r2": "C20 C01 C02 C07 C03"})
 names = sys.argv[1:] or sorted(n for n in TARGETS if os.path.isdir("/verif/seeded/" + n))
 for n in names:
     ids = TARGETS[n]
